@@ -51,7 +51,7 @@ def run(ctx, rep):
 
     # CSA violations -> rules
     mp = {'O1': 'R02.3', 'O2': 'R02.3', 'O3': 'R02.3', 'O4': 'R02.3', 'O1-underflow': 'R02.3', 'O5': 'R02.5', 'O6': 'R02.5', 'O6-operands': 'R02.3', 'O7': 'R02.4',
-          'O8': 'R02.1', 'O8-scope': 'R02.6', 'R02.2': 'R02.2', 'R02.6': 'R02.6', 'R12.1': 'R02.6', 'R09.1': None}
+          'O8': 'R02.1', 'O8-scope': 'R02.6', 'R02.2': 'R02.2', 'R02.6': 'R02.6', 'R12.1': 'R02.6', 'R09.1': None, 'R09.6': None, 'R17.2': None}
     nv = 0
     for v in R['violations']:
         rule = mp.get(v['oblig'], 'R02.3')
@@ -344,20 +344,32 @@ def check_ranges(ctx, rep):
     rep.ob(ok, 'R02.6', lfn.path, 'returns max_size', 'the frame size handed to Object::function is the context max_size', lfn.loc())
 
 
-def check_casts(ctx, rep):
+def check_casts(ctx, rep, rule='R02.4', only=None):
     """R02.4: code positions / counts are narrowed with checked conversions, never truncating `as`"""
     F = ctx.facts()
     n = 0
     for f in F.all_fns:
-        if not f.path.startswith('compiler::Compiler::'):
+        if not f.path.startswith('compiler::Compiler::') or (only and f.path not in only):
             continue
         for b, si, st in f.stmts():
             if st['k'] == 'assign' and st['rv']['k'] == 'cast' and st['rv']['ck'] == 'IntToInt':
                 fr, to = st['rv']['from'], st['rv']['to']
-                if fr in ('usize', 'u64', 'isize', 'u32') and to in ('u16', 'u8'):
+                WID = {'u8': 8, 'u16': 16, 'u32': 32, 'usize': 64, 'u64': 64, 'isize': 64, 'i64': 64, 'i32': 32}
+                if fr in WID and to in ('u16', 'u8') and WID[fr] > WID[to]:
+                    from rules import psc as _psc
+                    v = _psc.sym(f, st['rv']['op'])
+                    masked = v[0] == 'binop' and v[1] == 'BitAnd' and _psc.strip(v[3])[0] == 'int' and _psc.strip(v[3])[1] < (1 << WID[to])
+                    bounded = False
+                    for fa in _psc.facts_at(f, b):
+                        if fa[0] in ('Lt', 'Le') and _psc.strip(fa[1]) == _psc.strip(v) and _psc.strip(fa[2])[0] == 'int':
+                            k = _psc.strip(fa[2])[1] - (1 if fa[0] == 'Lt' else 0)
+                            if k < (1 << WID[to]):
+                                bounded = True
+                    if masked or bounded:
+                        continue
                     n += 1
-                    rep.bad('R02.4', f.path, 'truncating cast %s as %s' % (fr, to), 'a code position / count is narrowed with a truncating `as` cast', span_loc(st['span']))
+                    rep.bad(rule, f.path, 'truncating cast %s as %s' % (fr, to), 'an operand (position / index / count) is narrowed with a truncating `as` cast that is neither masked nor bounded by a dominating test', span_loc(st['span']))
     conv = F.callers_of(lambda p: p.endswith('TryInto<U>>::try_into') or p.endswith('TryFrom<usize>>::try_from'))
     k = sum(1 for f, b, t in conv if f.path.startswith('compiler::Compiler::'))
     rep.count('checked_narrowings', k)
-    rep.good('R02.4', 'compiler::Compiler', 'narrowing conversions', '%d checked conversions (try_into), %d truncating casts' % (k, n), None)
+    rep.good(rule, 'compiler::Compiler', 'narrowing conversions', '%d checked conversions (try_into), %d truncating casts' % (k, n), None)
